@@ -321,3 +321,34 @@ reg("C28",
     "The stub is mine (jinja absent). Known: a wrapped range containing an "
     "EXIT/CYCLE/RETURN is left without PostEnd.",
     "DESIGN.md §5 C28")
+
+reg("C20",
+    "compiled execution of generated PSy layers on the bundled LFRic "
+    "infrastructure (rank 0 of 2, real owned/annexed/halo DoFs) against the "
+    "formula parsed from the user guide",
+    "All 68 built-ins documented in dynamo0p3.rst are invoked in generated "
+    "algorithm programs under {dm off, dm on 1-of-1, dm on rank-0-of-2} x "
+    "annexed on/off x {serial, OpenMP variants with 4 threads}; after the "
+    "run every DoF in the documented range equals the documented formula "
+    "evaluated exactly (Fractions) on the dumped initial data, and "
+    "reductions equal the sum over OWNED DoFs as printed by the running "
+    "function-space object. Sampled data, all built-ins.",
+    "Oracle = the guide's formula line (hand entry only for setval_random: "
+    "range). One rank observed (halo_exchange/global sum are no-ops in the "
+    "stub). DoFs outside the documented range are counted, not judged.",
+    "DESIGN.md §5 C20")
+
+reg("C21",
+    "position-by-position monitor of the two real argument-list generators "
+    "on generated metadata + gfortran as a second monitor",
+    "Valid LFRic kernel metadata from 9 families (fields, vectors, LMA/CMA "
+    "operators, scalars, six stencil kinds, quadrature/evaluator shapes, "
+    "mesh and reference-element properties, bc kernels) goes through the "
+    "real stub generator and the real PSy-layer generator; actual and dummy "
+    "lists are compared on count, type, kind and rank, stub intents against "
+    "the documented ones, and the PSy layer is compiled against the stub "
+    "(also an assumed-shape variant so rank mismatches are visible).",
+    "Refusals by either generator are counted (domain, inter-grid, "
+    "any_space basis). Known: evaluator listed before a quadrature shape; "
+    "cross2d stencil mixed with another stencil type (twins pass).",
+    "DESIGN.md §5 C21")
